@@ -22,6 +22,7 @@ trait Codec<T: Identity>: Sized {
 
     fn encode_header<B: BufMut>(&mut self, header: &Header<T>, buf: &mut B) -> (r: core::result::Result<(), Self::Error>)
         ensures
+            (*final(buf)).cap() == (*old(buf)).cap(),
             r.is_ok() ==> (*final(buf)).written() == (*old(buf)).written() + Self::hdr_bytes(*header)
                 && (*final(buf)).rem() == (*old(buf)).rem() - Self::hdr_bytes(*header).len(),
             // on failure the buffer may be left dirty, but never shrinks and never exceeds its limit
@@ -35,6 +36,7 @@ trait Codec<T: Identity>: Sized {
 
     fn encode_member<B: BufMut>(&mut self, member: &Member<T>, buf: &mut B) -> (r: core::result::Result<(), Self::Error>)
         ensures
+            (*final(buf)).cap() == (*old(buf)).cap(),
             r.is_ok() ==> (*final(buf)).written() == (*old(buf)).written() + Self::mem_bytes(*member)
                 && (*final(buf)).rem() == (*old(buf)).rem() - Self::mem_bytes(*member).len(),
             r.is_err() ==> (*old(buf)).written().is_prefix_of((*final(buf)).written())
